@@ -552,6 +552,10 @@ class Interp(object):
             for (t0, alt0, s0) in self.state.notes:
                 if isinstance(s0, V) and k(s0) == sk and t0.split('(')[0] == text.split('(')[0]:
                     return alt0
+        if subject is None:
+            for (t0, alt0, s0) in self.state.notes:
+                if s0 is None and t0 == text:
+                    return alt0
         if self._dpos < len(self._decisions):
             t, alt = self._decisions[self._dpos]
             self._dpos += 1
